@@ -1754,3 +1754,11 @@ def _np_reduce_ext(attr):
 
 for _nm in ("min", "max"):
     EXTERNALS[f"numpy.{_nm}"] = EXTERNALS[f"numpy.a{_nm}"] = _np_reduce_ext(_nm)
+
+
+@external("numpy.errstate")
+def np_errstate(engine, run, a, k):
+    """np.errstate(...) only silences numpy's floating-point WARNINGS; the values computed inside (inf, nan for x / 0) are the same - so the
+    implicit obligations of the body (divisor non-zero, ...) are generated as everywhere else"""
+    run.trust("numpy: np.errstate changes warnings only, not values")
+    return SOpaque("errstate")
